@@ -20,6 +20,7 @@ import numpy as np
 
 from .. import models, pipeline, quant, tlc
 from . import manager
+from . import deton
 
 LEVEL = "model_checking"
 VT = 1e-7
@@ -402,7 +403,8 @@ def run(chk, tier, seed):
         a2 = pool.map_async(manager.execute, behs, chunksize=1)
         a3 = pool.map_async(manager.fresh, pairs, chunksize=1)
         a4 = pool.map_async(scripted_iterations, [(seed * 100 + q, 150 if tier == "quick" else 600) for q in range(2 if tier == "quick" else 8)], chunksize=1)
-        traces, hevs, refs, scripted = a1.get(), a2.get(), a3.get(), a4.get()
+        a5 = pool.map_async(deton.scripted_searches, [(seed * 100 + q, 100 if tier == "quick" else 400) for q in range(2 if tier == "quick" else 8)], chunksize=1)
+        traces, hevs, refs, scripted, dsearch = a1.get(), a2.get(), a3.get(), a4.get(), a5.get()
     htraces = []
     for i, (b, evs) in enumerate(zip(behs, hevs)):
         used = {(op["p"], "info") for op in b if op["op"] == "Setup" and op["kind"] == "good"} | {(pt, op["c"]) for op in b for pt in _points_of_calls(b, op)}
@@ -427,6 +429,19 @@ def run(chk, tier, seed):
     ptraces += [t for g in scripted for t in g]
     if ptraces:
         chk.add_validation(tlc.validate("TracePressureIter.tla", "TracePressureIter.cfg", ptraces), ptraces, what="pressure iteration")
+    # the detonation search on scripted pressure functions, against DetonSearch.tla
+    for o in ("TRUE", "FALSE"):
+        chk.add_model(tlc.run_model("DetonSearch.tla", f"DetonSearch_{o}.cfg", timeout=1200),
+                      label=f"detonation scan, onlySmallest={o}: all pressure-sign functions on the lattice, all admissible step sequences")
+    dtraces = [t for g in dsearch for t in g]
+    if dtraces:
+        chk.add_validation(tlc.validate("TraceDetonSearch.tla", "TraceDetonSearch.cfg", dtraces), dtraces, what="detonation search")
+    verdicts = {}
+    for t in dtraces:
+        k_ = t["ev"][-1].get("kind", t["ev"][-1].get("out"))
+        verdicts[k_] = verdicts.get(k_, 0) + 1
+    reprobes = sum(1 for t in dtraces if any(t["ev"][q]["e"] == "Probe" and t["ev"][q + 1]["e"] == "Probe" and t["ev"][q]["v"] == t["ev"][q + 1]["v"] for q in range(1, len(t["ev"]) - 1)))
+    chk.extra.update(detonation_searches_validated=len(dtraces), detonation_verdicts=verdicts, detonation_searches_probing_vmax_twice=reprobes)
     exits = {}
     damp = 0
     for t in ptraces:
